@@ -80,13 +80,27 @@ neither hands the send to another goroutine (which would break the per-poster or
 theorem post_shapes :
     Gen.Conc.postKinds = [("PostEvent", ["nonblocking"]), ("PostEventBlocking", ["blocking"])] := by decide +kernel
 
-/-- Lock order: over every lock site of vaxis.go, vaxis_unix.go, writer.go, window.go,
-ansi/parser.go and the spinner (regenerated on every run, calls followed three levels deep), the
-"acquired while holding" relation has no self-loop (Go mutexes are not re-entrant) and no pair in
-both directions: `Vaxis.mu`, `writer.mut`, `Parser.mu` and the spinner's mutex are never held nested
-in opposite orders. -/
+/-- Lock order: over every function of vaxis.go, vaxis_unix.go, writer.go, window.go, ansi/parser.go
+and the spinner that locks a mutex directly or through calls (regenerated on every run; round 3:
+events with their branch structure — a `return` ends its branch only —, callees qualified by the
+receiver's type, calls followed four levels deep through every function that locks transitively),
+the "acquired while holding" relation has no self-loop (Go mutexes are not re-entrant) and no pair
+in both directions: `Vaxis.mu`, `Vaxis.closeMu`, `Vaxis.suspendMu`, `writer.mut`, `Parser.mu` and the
+spinner's mutex are never held nested in opposite orders. (`Suspend` and `Resume` hold `suspendMu`
+across the writer's flush: the one nesting there is, `suspendMu → writer.mut`.) -/
 theorem lock_order :
     ∀ p ∈ allNested Gen.Conc.lockSites, p.1 ≠ p.2 ∧ (p.2, p.1) ∉ allNested Gen.Conc.lockSites := by decide +kernel
+
+/-- The nesting that exists is found (the computation is not vacuous on the real table), and the
+functions that run under `suspendMu` reach the writer's mutex only. -/
+theorem lock_nesting_found :
+    ("Vaxis.suspendMu", "writer.mut") ∈ allNested Gen.Conc.lockSites ∧
+    ∀ p ∈ allNested Gen.Conc.lockSites, p.1 = "Vaxis.suspendMu" → p.2 = "writer.mut" := by decide +kernel
+
+/-- A `return` inside a branch ends that branch only: the lock taken before the branch is still held
+after it (the flattened event list of rounds 1–2 lost it there). -/
+example : allNested [("t.f", ["L:A", "D:A", "{", "R", "}", "C:T.g"]), ("T.g", ["L:B", "U:B"]), ("U.g", ["L:C", "U:C"])]
+    = [("A", "B")] := by decide +kernel
 
 /-- Non-vacuity of the lock-order computation: an inversion is found when there is one. -/
 example : allNested [("a.f", ["L:A", "C:g", "U:A"]), ("b.g", ["L:B", "D:B", "C:h"]), ("c.h", ["L:A", "U:A"])]
